@@ -14,6 +14,7 @@ KINDS = ['Solid', 'Liquid', 'Enzyme']
 PARAMS = [  # pairwise coprime generic parameters (mw, density, specific activity U/g)
     {'mw': '58.5', 'dens': '1.25', 'act': '7000'},
     {'mw': '142.04', 'dens': '0.75', 'act': '13'},
+    {'mw': '58.5', 'dens': '1.25', 'act': '310'},     # a second lot of the first enzyme: only the specific activity differs
 ]
 
 
@@ -54,7 +55,7 @@ def coq_subst(kind, par, i):
 def cells(chk):
     amounts_all = ['1.75', '0', '-2.5']
     out = []
-    npar = 1 if chk.tier == 'quick' else len(PARAMS)
+    npar = 1 if chk.tier == 'quick' else 2
     for pi in range(npar):
         for kind in KINDS:
             for fpn, fpc, fpm in PREFIXES:
@@ -67,6 +68,14 @@ def cells(chk):
                                 ams = amounts_all
                             for q in ams:
                                 out.append((pi, kind, q, (fpn, fpc, fpm), (fbn, fbc), (tpn, tpc, tpm), (tbn, tbc)))
+    if True:
+        # a second lot of the same-named enzyme (only the specific activity differs): unprefixed and milli cells
+        p0 = [x for x in PREFIXES if x[0] == ''][0]
+        pm = [x for x in PREFIXES if x[0] == 'm'][0]
+        for fb in BASES:
+            for tb in BASES:
+                out.append((2, 'Enzyme', '1.75', p0, fb, p0, tb))
+                out.append((2, 'Enzyme', '1.75', pm, fb, p0, tb))
     return out
 
 
